@@ -509,3 +509,70 @@ Proof.
   - rewrite <- (map_map (fun x => chw_to_hwc C H W (g x)) (map (map f))). apply shape_nhw_map.
     rewrite <- (map_map g). apply chw_to_hwc_shape.
 Qed.
+
+Close Scope Qc_scope. Open Scope nat_scope.
+(* ================= part 5: locations of a reshaped matrix (no assumption on scikit-learn's transform) ================= *)
+Lemma nth_skipn {T} (l : list T) k j d : nth j (skipn k l) d = nth (k + j) l d.
+Proof. revert l; induction k as [|k IH]; intro l; [reflexivity|]. destruct l as [|x l]; [destruct j; reflexivity|]. cbn [skipn plus nth]. apply IH. Qed.
+
+Lemma nth_firstn_lt {T} (l : list T) b j d : j < b -> nth j (firstn b l) d = nth j l d.
+Proof. revert l j; induction b as [|b IH]; intros l j Hj; [lia|]. destruct l as [|x l]; [reflexivity|].
+  destruct j as [|j]; [reflexivity|]. cbn [firstn nth]. apply IH. lia. Qed.
+
+Lemma skipn_add {T} (l : list T) a b : skipn a (skipn b l) = skipn (b + a) l.
+Proof. revert l; induction b as [|b IH]; intro l; [reflexivity|]. destruct l as [|x l]; [rewrite !skipn_nil; reflexivity|]. cbn [skipn plus]. apply IH. Qed.
+
+Lemma nth_chunks {T} b (l : list T) i : 1 <= b -> i * b < length l ->
+  nth i (chunks b l) [] = firstn b (skipn (i * b) l).
+Proof.
+  intro Hb. revert l. induction i as [|i IH]; intros l Hi.
+  - rewrite chunks_cons_step by first [exact Hb | destruct l; [cbn [length] in Hi; lia | discriminate]]. reflexivity.
+  - rewrite chunks_cons_step by first [exact Hb | destruct l; [cbn [length] in Hi; lia | discriminate]].
+    cbn [nth]. rewrite IH by (rewrite skipn_length; lia). rewrite skipn_add. f_equal.
+Qed.
+
+Lemma reshape_nhw_location {T} H W (rows : list T) n h w d : 1 <= H -> 1 <= W ->
+  (n + 1) * (H * W) <= length rows -> h < H -> w < W ->
+  nth w (nth h (nth n (reshape_nhw H W rows) []) []) d = nth (n * (H * W) + h * W + w) rows d.
+Proof.
+  intros HH HW Hlen Hh Hw. unfold reshape_nhw.
+  rewrite (map_nth (chunks W) (chunks (H * W) rows) [] n : nth n (map (chunks W) (chunks (H * W) rows)) [] = _).
+  assert (Hhw : 1 <= H * W) by nia.
+  assert (Hn : n * (H * W) < length rows) by lia.
+  rewrite (nth_chunks (H * W) rows n Hhw Hn).
+  assert (Hblk : length (firstn (H * W) (skipn (n * (H * W)) rows)) = H * W).
+  { rewrite firstn_length, skipn_length. lia. }
+  assert (Hh2 : h * W < length (firstn (H * W) (skipn (n * (H * W)) rows))) by (rewrite Hblk; nia).
+  rewrite (nth_chunks W _ h HW Hh2).
+  rewrite nth_firstn_lt by exact Hw. rewrite nth_skipn. rewrite nth_firstn_lt by nia. rewrite nth_skipn.
+  f_equal. lia.
+Qed.
+
+Lemma flatten_nhw_length {T} H W (a : list (list (list T))) : shape_nhw H W a -> length (flatten_nhw a) = length a * (H * W).
+Proof.
+  intro Hs. unfold flatten_nhw. rewrite (concat_length_blocks (H * W)); [rewrite map_length; reflexivity|].
+  intros l Hl. apply in_map_iff in Hl. destruct Hl as [x [<- Hx]].
+  rewrite (concat_length_blocks W) by apply (proj2 (Hs x Hx)). rewrite (proj1 (Hs x Hx)). reflexivity.
+Qed.
+
+(* for ANY matrix function nmf that returns one row per row: location (n, h, w) of transform(x) is the row of the result
+   at the position where the activation vector of (n, h, w) was handed over *)
+Lemma transform_4d_location {X} (G : list X -> list (list Qc)) g nmf bs C H W (xs : list X) n h w d :
+  rowwise G g -> (forall M, length (nmf M) = length M) ->
+  1 <= bs -> 1 <= H -> 1 <= W -> n < length xs -> h < H -> w < W ->
+  let M := flatten_nhw (map (fun x => chw_to_hwc C H W (g x)) xs) in
+  let k := n * (H * W) + h * W + w in
+  nth w (nth h (nth n (transform_4d G nmf bs C H W xs) []) []) [] = nth k (nmf M) [] /\
+  nth k M [] = act_at C H W (g (nth n xs d)) h w.
+Proof.
+  intros HG Hlen Hb HH HW Hn Hh Hw M k.
+  assert (Hs : shape_nhw H W (map (fun x => chw_to_hwc C H W (g x)) xs))
+    by (rewrite <- (map_map g); apply chw_to_hwc_shape).
+  assert (HM : length M = length xs * (H * W)) by (unfold M; rewrite (flatten_nhw_length H W), map_length by exact Hs; reflexivity).
+  split.
+  - rewrite (transform_4d_matrix G g nmf HG) by exact Hb. fold M. unfold k.
+    apply reshape_nhw_location; try assumption. rewrite Hlen, HM. nia.
+  - unfold k. rewrite <- (reshape_nhw_location H W M n h w []) by first [assumption | rewrite HM; nia].
+    unfold M. rewrite reshape_flatten_nhw by assumption.
+    rewrite (nth_map_in _ xs n d []) by exact Hn. apply chw_to_hwc_at; assumption.
+Qed.
